@@ -82,11 +82,16 @@ def sample(pid, tid, time, ip, callchain, cpu=0, period=1, kernel=False):
     return _rec(PERF_RECORD_SAMPLE, MISC_KERNEL if kernel else MISC_USER, body)
 
 
+def switch(pid, tid, time, cpu=0, out=False):
+    """PERF_RECORD_SWITCH: no body, only the sample_id_all trailer; misc bit 13 = switch-out"""
+    return _rec(PERF_RECORD_SWITCH, MISC_SWITCH_OUT if out else 0, _trailer(pid, tid, time, cpu))
+
+
 def finished_round():
     return _rec(PERF_RECORD_FINISHED_ROUND, 0, b"")
 
 
-def build(records, arch="x86_64", first_time=None, last_time=None, period=1000000):
+def build(records, arch="x86_64", first_time=None, last_time=None, period=1000000, context_switch=False):
     """records: list of bytes.  Returns the file contents."""
     attr = struct.pack("<IIQQQQQIIQQQQIIQIHH",
                        1,                # type = PERF_TYPE_SOFTWARE
@@ -95,7 +100,7 @@ def build(records, arch="x86_64", first_time=None, last_time=None, period=100000
                        period,           # sample_period
                        SAMPLE_TYPE,
                        0,                # read_format
-                       F_DISABLED | F_INHERIT | F_MMAP | F_COMM | F_TASK | F_SAMPLE_ID_ALL | F_MMAP2 | F_COMM_EXEC,
+                       F_DISABLED | F_INHERIT | F_MMAP | F_COMM | F_TASK | F_SAMPLE_ID_ALL | F_MMAP2 | F_COMM_EXEC | (F_CONTEXT_SWITCH if context_switch else 0),
                        0, 0,             # wakeup, bp_type
                        0, 0,             # config1, config2
                        0,                # branch_sample_type
